@@ -781,4 +781,391 @@ theorem refresh_frame (s : HState) (now : Nat) :
   obtain ⟨k1, k2, k3⟩ := key
   exact ⟨by rw [k1], k2, k3⟩
 
+/-! ### whom a search queries after its first round -/
+
+theorem requestRound_requested (l : Lookup) (env : LEnv) (nodes : List (Handle × Bytes)) :
+    ∀ h ∈ (l.requestRound env nodes).1.requested, h ∈ l.requested ∨ ∃ hd ∈ nodes, hd.1 = h := by
+  have key : ∀ (ns : List (Handle × Bytes)) (acc : RoundAcc),
+      (∀ h ∈ acc.l.requested, h ∈ l.requested ∨ ∃ hd ∈ nodes, hd.1 = h) → (∀ x ∈ ns, x ∈ nodes) →
+      ∀ h ∈ (ns.foldl requestStep acc).l.requested, h ∈ l.requested ∨ ∃ hd ∈ nodes, hd.1 = h := by
+    intro ns
+    induction ns with
+    | nil => intro acc h _; exact h
+    | cons x xs ih =>
+      intro acc hacc hsub
+      simp only [List.foldl_cons]
+      refine ih _ ?_ (fun y hy => hsub y (List.mem_cons_of_mem _ hy))
+      unfold requestStep
+      simp only
+      split
+      · exact hacc
+      · simp only
+        split
+        · exact hacc
+        · intro h hh
+          rcases List.mem_append.mp hh with hh | hh
+          · exact hacc h hh
+          · simp only [List.mem_singleton] at hh
+            exact Or.inr ⟨x, hsub x List.mem_cons_self, hh.symm⟩
+  have := key nodes { l := l, env := env, effs := [], sent := 0 } (fun h hh => Or.inl hh) (fun x hx => hx)
+  unfold Lookup.requestRound
+  simp only
+  split <;> exact this
+
+theorem endgameRound_requested (l : Lookup) (env : LEnv) : (l.endgameRound env).1.requested = l.requested :=
+  (endgameRound_res l env).2.2.1
+
+theorem continueSearch_requested (l : Lookup) (env : LEnv) (it : Option (List (Handle × Bool))) (nd : Bytes) :
+    ∀ h ∈ (l.continueSearch env it nd).1.requested, h ∈ (l.iterRound env it nd).1.requested ∨ h ∈ l.requested := by
+  intro h hh
+  unfold Lookup.continueSearch at hh
+  split at hh
+  · simp only at hh
+    split at hh
+    · simp only at hh
+      rw [endgameRound_requested] at hh
+      exact Or.inl hh
+    · exact Or.inl hh
+  · exact Or.inr hh
+
+/-- **after its first round a search only queries nodes that an accepted answer named** -/
+theorem recvResponse_requested (l : Lookup) (env : LEnv) (fr : Handle) (tid : Tid) (rsp : Resp) :
+    ∀ h ∈ (l.recvResponse env fr tid rsp).1.requested,
+      h ∈ l.requested ∨ h ∈ (if l.v6 then rsp.nodes6 else rsp.nodes4) := by
+  unfold Lookup.recvResponse
+  cases hfind : l.active.find? (·.1 = tid) with
+  | none => intro h hh; exact Or.inl hh
+  | some entry =>
+    simp only
+    have rt := recordToken_dl { l with active := l.active.filter (·.1 ≠ tid) } fr rsp.token
+    have rv : (({ l with active := l.active.filter (·.1 ≠ tid) } : Lookup).recordToken fr rsp.token).v6 = l.v6 := by
+      unfold Lookup.recordToken
+      cases rsp.token with
+      | none => rfl
+      | some t => simp only; split <;> rfl
+    rw [rv]
+    generalize hN : (if l.v6 = true then rsp.nodes6 else rsp.nodes4) = N
+    -- the picks of the iterative round are among the named nodes
+    have hpk : ∀ picks, ((({ l with active := l.active.filter (·.1 ≠ tid) } : Lookup).recordToken fr rsp.token).absorbNodes N entry.2.1).2.1 = some picks →
+        ∀ p ∈ picks, p.2 = true → p.1 ∈ N := by
+      intro picks hp p hpm hu
+      unfold Lookup.absorbNodes at hp
+      split at hp
+      · cases hp
+      · simp only at hp
+        split at hp
+        · simp only [Option.some.injEq] at hp
+          subst hp
+          exact (List.mem_filter.mp (pickIterate_used _ _ p hpm hu)).1
+        · cases hp
+    have ab := absorbNodes_dl (({ l with active := l.active.filter (·.1 ≠ tid) } : Lookup).recordToken fr rsp.token) N entry.2.1
+    generalize (({ l with active := l.active.filter (·.1 ≠ tid) } : Lookup).recordToken fr rsp.token).absorbNodes N entry.2.1 = A at hpk ab
+    have hreq : A.1.requested = l.requested := ab.1.trans rt.1
+    have hiter : ∀ (env' : LEnv), ∀ x ∈ (A.1.iterRound env' A.2.1 A.2.2).1.requested, x ∈ l.requested ∨ x ∈ N := by
+      intro env' x hx
+      unfold Lookup.iterRound at hx
+      cases hA : A.2.1 with
+      | none => rw [hA] at hx; simp only at hx; rw [hreq] at hx; exact Or.inl hx
+      | some picks =>
+        rw [hA] at hx
+        simp only at hx
+        rcases requestRound_requested _ _ _ x hx with h1 | ⟨hd, hhd, rfl⟩
+        · rw [hreq] at h1; exact Or.inl h1
+        · obtain ⟨p, hp, rfl⟩ := List.mem_map.mp hhd
+          obtain ⟨hp1, hp2⟩ := List.mem_filter.mp hp
+          exact Or.inr (hpk picks hA p hp1 hp2)
+    intro h hh
+    rcases continueSearch_requested _ _ _ _ h hh with h1 | h1
+    · exact hiter _ h h1
+    · rw [hreq] at h1; exact Or.inl h1
+
+/-- what the handler's run loop reacts to -/
+inductive HOp where
+  | incoming (tid : InTid) (body : Body) (src : Addr)
+  | start (target : Bytes) (announce : Bool)
+  | fire
+
+def HState.hstep (s : HState) (op : HOp) (now : Nat) : HState :=
+  match op with
+  | .incoming tid body src => (s.handleIncoming tid body src now).1
+  | .start target ann => (s.startLookup target ann now).1
+  | .fire => (s.fireTimer now).1
+
+/-- ghost bookkeeping: per action id, the instant the search started and the number of nodes
+queried in its first round -/
+def ghostStep (g : Nat → Nat × Nat) (s : HState) (op : HOp) (now : Nat) : Nat → Nat × Nat :=
+  match op with
+  | .start target ann =>
+    fun a => if a = s.nextAid then
+      (now, (Lookup.new s.nextAid s.nextStream s.selfId s.v6 target ann (s.env now)).1.requested.length) else g a
+  | _ => g
+
+/-- timers fire at most `J` after their deadline: at `now` nothing pending is overdue by more -/
+def Punctual (J : Nat) (s : HState) (now : Nat) : Prop := ∀ te ∈ s.timer.entries, now ≤ te.deadline + J
+
+structure HDl (J : Nat) (g : Nat → Nat × Nat) (s : HState) : Prop where
+  timerOk : TimerOk s.timer
+  aidLt : ∀ l ∈ s.lookups, l.aid < s.nextAid
+  inv : ∀ l ∈ s.lookups, LInv J (g l.aid).1 (g l.aid).2 s.timer l
+
+theorem linv_not_completed {J T0 ic : Nat} {t : Timer Task} {l : Lookup} (h : LInv J T0 ic t l) : l.completedNow = false := by
+  unfold Lookup.completedNow
+  cases hE : l.inEndgame with
+  | true => simp
+  | false => have := (h.reg hE).1; simp [this]
+
+theorem hdl_new (J : Nat) (g : Nat → Nat × Nat) (selfId : Bytes) (v6 ro : Bool) (port : Option Nat) (fa : List Addr) (now : Nat) :
+    HDl J g (HState.new selfId v6 ro port fa now) :=
+  ⟨timerOk_new, by simp [HState.new], by simp [HState.new]⟩
+
+/-- replacing the searches with action id `a` by `l'` -/
+theorem hdl_replace (J : Nat) (g : Nat → Nat × Nat) (s : HState) (h : HDl J g s) (l l' : Lookup) (hl : l ∈ s.lookups)
+    (t' : Timer Task) (tbl : Table) (hok : TimerOk t') (haid : l'.aid = l.aid)
+    (hl' : LInv J (g l.aid).1 (g l.aid).2 t' l')
+    (hothers : ∀ m ∈ s.lookups, m.aid ≠ l.aid → LInv J (g m.aid).1 (g m.aid).2 t' m) :
+    HDl J g { s with table := tbl, timer := t', lookups := s.lookups.map (fun x => if x.aid = l.aid then l' else x) } := by
+  refine ⟨hok, ?_, ?_⟩
+  · intro m hm
+    obtain ⟨x, hx, rfl⟩ := List.mem_map.mp hm
+    split
+    · rw [haid]; exact h.aidLt l hl
+    · exact h.aidLt x hx
+  · intro m hm
+    obtain ⟨x, hx, rfl⟩ := List.mem_map.mp hm
+    split
+    · rw [haid]; exact hl'
+    · rename_i hne; exact hothers x hx hne
+
+/-- a response routed to the stored search `l` -/
+theorem lookupResponse_dl (J : Nat) (g : Nat → Nat × Nat) (s : HState) (now : Nat) (h : HDl J g s) (hp : Punctual J s now)
+    (l : Lookup) (hl : l ∈ s.lookups) (t? : Option Tid) (rsp : Resp) (src : Addr) :
+    HDl J g (s.lookupResponse l t? rsp src now).1 := by
+  have hlinv := h.inv l hl
+  unfold HState.lookupResponse
+  extract_lets s1 r s2
+  -- the three possibilities: no drawn id, an id that is not outstanding, an accepted answer
+  have hcase : r = (l, s1.env now, []) ∨
+      ∃ t entry, l.active.find? (·.1 = t) = some entry ∧ r = l.recvResponse (s1.env now) ⟨rsp.id, src⟩ t rsp := by
+    cases t? with
+    | none => exact Or.inl rfl
+    | some t =>
+      cases hfind : l.active.find? (·.1 = t) with
+      | none => left; exact recvResponse_unknown l _ _ t rsp hfind
+      | some entry => exact Or.inr ⟨t, entry, hfind, rfl⟩
+  have key : r.1.completedNow = false ∧
+      HDl J g { s with table := r.2.1.table, timer := r.2.1.timer,
+                       lookups := s.lookups.map (fun x => if x.aid = l.aid then r.1 else x) } := by
+    rcases hcase with hr | ⟨t, entry, hfind, hr⟩
+    · rw [hr]
+      exact ⟨linv_not_completed hlinv, hdl_replace J g s h l l hl s.timer _ h.timerOk rfl hlinv (fun m hm _ => h.inv m hm)⟩
+    · rw [hr]
+      have d := recvResponse_dl J (g l.aid).1 (g l.aid).2 l (s1.env now) ⟨rsp.id, src⟩ t rsp entry hfind hlinv h.timerOk hp
+      have o := recvResponse_others J (g l.aid).1 (g l.aid).2 l s.timer _ t entry hfind hlinv h.timerOk d.1
+      exact ⟨linv_not_completed d.2.1,
+        hdl_replace J g s h l _ hl _ _ o.1 d.2.2 d.2.1 (fun m hm hne => o.2 _ _ m (h.inv m hm) hne)⟩
+  obtain ⟨hnc, hd⟩ := key
+  rw [if_neg (by simp [hnc])]
+  exact hd
+
+/-- the timeout entry `e` of query `t` of the stored search `l` fired -/
+theorem lookupTimeout_dl (J : Nat) (g : Nat → Nat × Nat) (s : HState) (now : Nat) (h : HDl J g s) (hp : Punctual J s now)
+    (timer : Timer Task) (e : TimerEntry Task) (hpop : s.timer.pop = some (timer, e)) (t : Tid)
+    (htask : e.task = .lookupTimeout t) (l : Lookup) (hl : l ∈ s.lookups) (haid' : l.aid = t.aid) :
+    HDl J g (({ s with timer := timer } : HState).lookupTimeout l t now).1 := by
+  obtain ⟨p1, _, _, p4, _⟩ := pop_spec s.timer timer e hpop
+  have pok := pop_ok s.timer timer e hpop h.timerOk
+  have hlinv := h.inv l hl
+  -- the other queries' entries and the end-game entry survive the pop
+  have own : ∀ te ∈ s.timer.entries, (∀ q, te.task = .lookupTimeout q → q ≠ t) → te ∈ timer.entries := by
+    intro te hte hq
+    apply p4 te hte
+    intro hid
+    have := timerOk_inj h.timerOk hte p1 hid
+    rw [this, htask] at hq
+    exact hq t rfl rfl
+  have hreg' : l.inEndgame = false → ∀ e' ∈ l.active, e'.1 ≠ t →
+      HasTimeout timer e' (roundBound (g l.aid).1 J (l.requested.length - (g l.aid).2)) := by
+    intro hE e' he' hne
+    obtain ⟨te, h1, h2, h3, h4⟩ := (hlinv.reg hE).2 e' he'
+    have hq : ∀ q, te.task = .lookupTimeout q → q ≠ t := by
+      intro q hq
+      rw [h3] at hq
+      simp only [Task.lookupTimeout.injEq] at hq
+      rw [← hq]
+      exact hne
+    exact ⟨te, own te h1 hq, h2, h3, h4⟩
+  have heg' : l.inEndgame = true →
+      HasEndgame timer l.aid (roundBound (g l.aid).1 J (l.requested.length - (g l.aid).2) + J + endgameNs) := by
+    intro hE
+    obtain ⟨te, h1, q, h2, h3⟩ := hlinv.eg hE
+    have hq : ∀ q', te.task = .lookupTimeout q' → q' ≠ t := by
+      intro q' hq
+      rw [h2] at hq
+      cases hq
+    exact ⟨te, own te h1 hq, q, h2, h3⟩
+  have hnow' : l.inEndgame = false → now ≤ roundBound (g l.aid).1 J (l.requested.length - (g l.aid).2) + J := by
+    intro hE
+    obtain ⟨hne, hreg⟩ := hlinv.reg hE
+    obtain ⟨e0, he0⟩ := List.exists_mem_of_ne_nil _ hne
+    obtain ⟨te, h1, _, _, h4⟩ := hreg e0 he0
+    exact Nat.le_trans (hp te h1) (Nat.add_le_add_right h4 _)
+  have d := recvTimeout_dl J (g l.aid).1 (g l.aid).2 l (({ s with timer := timer } : HState).env now) t
+    hlinv.ic_le hlinv.tids (fun hE => (hlinv.reg hE).1) hreg' heg' hnow'
+  unfold HState.lookupTimeout
+  extract_lets r s2
+  have hd : HDl J g { s with table := r.2.1.table, timer := r.2.1.timer, lookups := s.lookups.map (fun x => if x.aid = l.aid then r.1 else x) } := by
+    refine hdl_replace J g s h l r.1 hl _ _ (d.1.ok pok) d.2.2 d.2.1 (fun m hm hne => ?_)
+    refine linv_frame J _ _ s.timer timer _ m (h.inv m hm) h.timerOk e p1 p4 d.1 (fun q hq => ?_)
+      (fun q hq => by rw [htask] at hq; cases hq)
+    rw [htask] at hq
+    simp only [Task.lookupTimeout.injEq] at hq
+    subst hq
+    rw [← haid']
+    exact fun hc => hne hc.symm
+  have hnc : r.1.completedNow = false := linv_not_completed d.2.1
+  rw [if_neg (by simp [hnc])]
+  exact hd
+
+/-- **every step of the handler keeps the deadline invariant of every stored search**, provided
+timers fire at most `J` late -/
+theorem hstep_dl (J : Nat) (g : Nat → Nat × Nat) (s : HState) (op : HOp) (now : Nat) (h : HDl J g s)
+    (hp : Punctual J s now) : HDl J (ghostStep g s op now) (s.hstep op now) := by
+  cases op with
+  | incoming tid body src =>
+    show HDl J g (s.handleIncoming tid body src now).1
+    unfold HState.handleIncoming
+    cases body with
+    | req r =>
+      obtain ⟨f1, f2, f3⟩ := handleRequest_frame s tid r src now
+      exact ⟨f1 ▸ h.timerOk, fun l hl => by rw [f3]; exact h.aidLt l (f2 ▸ hl), fun l hl => by rw [f1]; exact h.inv l (f2 ▸ hl)⟩
+    | err c m => exact h
+    | resp rsp =>
+      simp only
+      unfold HState.handleResponse
+      cases hroute : tid.route with
+      | none => exact h
+      | some at_ =>
+        obtain ⟨aid, t?⟩ := at_
+        simp only
+        cases hfl : s.lookups.find? (·.aid = aid) with
+        | none =>
+          simp only
+          split
+          · exact ⟨h.timerOk, h.aidLt, h.inv⟩
+          · exact h
+        | some l =>
+          simp only
+          obtain ⟨hl, haid⟩ := find_some_mem _ _ _ hfl
+          have hlinv := h.inv l hl
+          exact lookupResponse_dl J g s now h hp l hl t? rsp src
+  | start target ann =>
+    show HDl J _ (s.startLookup target ann now).1
+    unfold HState.startLookup HState.afterNew
+    simp only
+    obtain ⟨nx, naid, ninv⟩ := new_dl J s.nextAid s.nextStream s.selfId s.v6 target ann (s.env now)
+    generalize hr : Lookup.new s.nextAid s.nextStream s.selfId s.v6 target ann (s.env now) = r at nx naid ninv
+    have hg : ∀ m ∈ s.lookups, (ghostStep g s (.start target ann) now) m.aid = g m.aid := by
+      intro m hm
+      simp only [ghostStep]
+      rw [if_neg (Nat.ne_of_lt (h.aidLt m hm))]
+    have hgn : (ghostStep g s (.start target ann) now) s.nextAid = (now, r.1.requested.length) := by
+      simp only [ghostStep, if_true, hr]
+    have hnx : TimerExt s.timer r.2.1.timer := nx
+    split
+    · -- it could query nobody: finished at once, nothing stored
+      rename_i hc
+      refine ⟨?_, ?_, ?_⟩
+      · simp only [HState.withEnv, HState.env]
+        rw [recvFinished_timer]
+        exact hnx.ok h.timerOk
+      · intro m hm
+        simp only [HState.withEnv] at hm ⊢
+        exact Nat.lt_succ_of_lt (h.aidLt m hm)
+      · intro m hm
+        simp only [HState.withEnv, HState.env] at hm ⊢
+        rw [recvFinished_timer, hg m hm]
+        exact linv_ext J _ _ _ _ m (h.inv m hm) hnx
+    · rename_i hc
+      have hc' : r.1.completedNow = false := by simpa using hc
+      refine ⟨hnx.ok h.timerOk, ?_, ?_⟩
+      · intro m hm
+        simp only [HState.withEnv, List.mem_append, List.mem_singleton] at hm ⊢
+        rcases hm with hm | rfl
+        · exact Nat.lt_succ_of_lt (h.aidLt m hm)
+        · rw [naid]; exact Nat.lt_succ_self _
+      · intro m hm
+        simp only [HState.withEnv, List.mem_append, List.mem_singleton] at hm ⊢
+        rcases hm with hm | rfl
+        · rw [hg m hm]; exact linv_ext J _ _ _ _ m (h.inv m hm) hnx
+        · rw [naid, hgn]
+          have := ninv hc'
+          simpa [HState.env] using this
+  | fire =>
+    show HDl J g (s.fireTimer now).1
+    unfold HState.fireTimer
+    cases hpop : s.timer.pop with
+    | none => exact h
+    | some pe =>
+      obtain ⟨timer, e⟩ := pe
+      simp only
+      obtain ⟨p1, p2, p3, p4, _⟩ := pop_spec s.timer timer e hpop
+      have pok := pop_ok s.timer timer e hpop h.timerOk
+      -- a search whose entry it is not keeps its invariant over the pop
+      have frame : ∀ m ∈ s.lookups, (∀ q, e.task = .lookupTimeout q → q.aid ≠ m.aid) →
+          (∀ q, e.task = .lookupEndGame q → q.aid ≠ m.aid) → ∀ t', TimerExt timer t' →
+          LInv J (g m.aid).1 (g m.aid).2 t' m :=
+        fun m hm h1 h2 t' hx => linv_frame J _ _ s.timer timer t' m (h.inv m hm) h.timerOk e p1 p4 hx h1 h2
+      unfold HState.handleTask
+      cases htask : e.task with
+      | tableRefresh =>
+        simp only
+        obtain ⟨r1, r2, r3⟩ := refresh_frame { s with timer := timer } now
+        have hx := scheduleAt_ext timer (now + Constants.REFRESH_INTERVAL_TIMEOUT_ns) Task.tableRefresh
+        refine ⟨by rw [r1]; exact hx.ok pok, fun l hl => by rw [r3]; exact h.aidLt l (r2 ▸ hl), fun l hl => ?_⟩
+        rw [r1]
+        exact frame l (r2 ▸ hl) (fun q hq => by rw [htask] at hq; cases hq) (fun q hq => by rw [htask] at hq; cases hq) _ hx
+      | lookupEndGame t =>
+        simp only
+        unfold HState.completeLookup
+        simp only
+        cases hfl : s.lookups.find? (·.aid = t.aid) with
+        | none =>
+          simp only
+          refine ⟨pok, h.aidLt, fun m hm => frame m hm (fun q hq => by rw [htask] at hq; cases hq) (fun q hq => ?_) _ (timerExt_refl _)⟩
+          rw [htask] at hq
+          simp only [Task.lookupEndGame.injEq] at hq
+          subst hq
+          intro hc
+          have := List.find?_eq_none.mp hfl m hm
+          simp [hc] at this
+        | some l =>
+          simp only [HState.withEnv, HState.env]
+          refine ⟨by rw [recvFinished_timer]; exact pok, fun m hm => h.aidLt m (List.mem_filter.mp hm).1, fun m hm => ?_⟩
+          obtain ⟨hm1, hm2⟩ := List.mem_filter.mp hm
+          rw [recvFinished_timer]
+          refine frame m hm1 (fun q hq => by rw [htask] at hq; cases hq) (fun q hq => ?_) _ (timerExt_refl _)
+          rw [htask] at hq
+          simp only [Task.lookupEndGame.injEq] at hq
+          subst hq
+          intro hc
+          simp [hc] at hm2
+      | lookupTimeout t =>
+        simp only
+        cases hfl : s.lookups.find? (·.aid = t.aid) with
+        | none =>
+          simp only
+          refine ⟨pok, h.aidLt, fun m hm => frame m hm (fun q hq => ?_) (fun q hq => by rw [htask] at hq; cases hq) _ (timerExt_refl _)⟩
+          rw [htask] at hq
+          simp only [Task.lookupTimeout.injEq] at hq
+          subst hq
+          intro hc
+          have := List.find?_eq_none.mp hfl m hm
+          simp [hc] at this
+        | some l =>
+          simp only
+          obtain ⟨hl, haid⟩ := find_some_mem _ _ _ hfl
+          have haid' : l.aid = t.aid := by simpa using haid
+          have hlinv := h.inv l hl
+          exact lookupTimeout_dl J g s now h hp timer e hpop t htask l hl haid'
+
 end Btdht
